@@ -246,10 +246,10 @@ fn tree_from_triples(f: &mut Forest, blob: &[u8], tr: &[ParsedTriple]) -> Option
 }
 
 /// a reader that hands out at most `step` bytes per call
-struct ShortReader<'a> {
-    data: &'a [u8],
-    pos: usize,
-    step: usize,
+pub struct ShortReader<'a> {
+    pub data: &'a [u8],
+    pub pos: usize,
+    pub step: usize,
 }
 
 impl std::io::Read for ShortReader<'_> {
